@@ -175,6 +175,7 @@ pub fn c11(a: &Args) {
     let nplain = cases.len();
     if a.num("boundary", 0) == 1 {
         cases.extend(crate::gen::boundary_event_cases());
+        cases.extend(crate::gen::literal_event_cases());
     }
     let mut r = Rng::new(a.num("seed", 1));
     let per_kind_all = a.num("all", 0) == 1;
@@ -215,7 +216,10 @@ pub fn c11(a: &Args) {
             }
         };
         // other values / other text content (including whitespace-only text)
-        for salt in [1usize, 2, 3, 4, 6 + ci % 21, 6 + (ci * 7 + 3) % 21] {
+        let nlit = crate::gen::literals().len().max(1);
+        // (the cases built from the literals get every literal as a value, the others two of them)
+        let lit_salts: Vec<usize> = if ci >= nplain { (0..nlit).map(|k| 27 + k).collect() } else { vec![27 + ci % nlit, 27 + (ci * 5 + 1) % nlit] };
+        for salt in [1usize, 2, 3, 4, 6 + ci % 21, 6 + (ci * 7 + 3) % 21].into_iter().chain(lit_salts) {
             let nd: Vec<(Vec<u8>, ReaderCfg)> = calls.iter().map(|e| { let d = serialize_salted(e, 0, salt); (d.bytes, d.cfg) }).collect();
             check(format!("other values (salt {})", salt), nd, Feed::Whole, &mut mismatches);
         }
@@ -290,17 +294,35 @@ fn schema_of(docs: &[(Vec<u8>, ReaderCfg)]) -> Value {
 
 /// C06: permutations, repetitions and element-less documents do not change the schema (modulo field order)
 pub fn c06(a: &Args) {
-    let cases = read_lines(&a.req("cases"));
+    let mut cases = read_lines(&a.req("cases"));
+    let nplain = cases.len();
+    // scale: one element seen 1 000 / 10 050 / 70 000 times, in documents whose rows differ in which children they have
+    if a.num("scale", 0) == 1 {
+        for n in [1000usize, 10_050, 70_000] {
+            let rows = |k: usize, with_note: bool| -> String {
+                (0..k).map(|_| if with_note { "<row><id/><note/></row>" } else { "<row><id/></row>" }).collect()
+            };
+            let small = "<a><row><id/><note/></row><row><id/></row></a>".to_string();
+            let big = format!("<a>{}</a>", rows(n, true));
+            let late = format!("<a>{}<row><id/><extra/></row></a>", rows(n, true));
+            for docs in [vec![small.clone(), big.clone()], vec![big.clone(), small.clone()], vec![late.clone(), small.clone()], vec![small.clone(), late.clone()]] {
+                cases.push(json!({"indomain": true, "expect": {"st": "ok"}, "raw": docs, "calls": []}));
+            }
+        }
+    }
     let stride = a.num("stride", 1) as usize;
     let mut mismatches = Vec::new();
     let (mut sessions, mut applied) = (0usize, 0usize);
     let empties: [&[u8]; 4] = [b"", b"<!-- c -->", b"<?xml version='1.0'?>", b"\n"];
     for (ci, c) in cases.iter().enumerate() {
         let calls = c["calls"].as_array().unwrap();
-        if ci % stride != 0 || c["indomain"] != true || c["expect"]["st"] != "ok" {
+        if (ci < nplain && ci % stride != 0) || c["indomain"] != true || c["expect"]["st"] != "ok" {
             continue;
         }
-        let docs: Vec<(Vec<u8>, ReaderCfg)> = calls.iter().map(|x| { let d = serialize_salted(x["events"].as_array().unwrap(), 0, 0); (d.bytes, d.cfg) }).collect();
+        let docs: Vec<(Vec<u8>, ReaderCfg)> = match c.get("raw").and_then(|r| r.as_array()) {
+            Some(raw) => raw.iter().map(|d| (d.as_str().unwrap_or("").as_bytes().to_vec(), ReaderCfg::default_cfg())).collect(),
+            None => calls.iter().map(|x| { let d = serialize_salted(x["events"].as_array().unwrap(), 0, 0); (d.bytes, d.cfg) }).collect(),
+        };
         // element-less documents cannot come first (a parse of them is an error by C08)
         let has_elem = |d: &(Vec<u8>, ReaderCfg)| observe(&d.0, &d.1).events.iter().any(|e| e["kind"] == "Start" || e["kind"] == "Empty");
         let real: Vec<(Vec<u8>, ReaderCfg)> = docs.iter().filter(|d| has_elem(d)).cloned().collect();
@@ -309,6 +331,24 @@ pub fn c06(a: &Args) {
         }
         sessions += 1;
         let base = schema_of(&docs);
+        // the scale cases are too large for the trace specification (SchemaTrace needs more than 25 minutes for 10 050
+        // rows); for them the schema the documents determine is computed by the harness's own DOM inference (proj::ty_of,
+        // the one the replay cross-checks against Schema!TyOf on every enumerated history)
+        if c.get("raw").is_some() && base["st"] == "ok" {
+            let mut roots: Vec<crate::proj::Node> = Vec::new();
+            for (b, cfg) in &docs {
+                let obs = observe(b, cfg);
+                roots.extend(crate::proj::dom(&obs.events, &obs.ws_text));
+            }
+            let refs: Vec<&crate::proj::Node> = roots.iter().collect();
+            let expect = unordered(&crate::proj::ty_of(&refs));
+            applied += 1;
+            if base["schema"] != expect {
+                mismatches.push(json!({"kind": "rewrite", "class": "c06", "rewrite": "the schema inferred from the union of all occurrences (scale case)",
+                    "docs": docs_json(&docs[..1]), "rewritten_docs": docs_json(&docs[..1]), "expected": expect, "actual": base["schema"],
+                    "sizes": docs.iter().map(|d| d.0.len()).collect::<Vec<_>>()}));
+            }
+        }
         let mut check = |what: String, nd: Vec<(Vec<u8>, ReaderCfg)>, mismatches: &mut Vec<Value>| {
             let s = schema_of(&nd);
             applied += 1;
